@@ -26,7 +26,7 @@ def sh(cmd, cwd=None, env=None, timeout=1800):
 
 def baseline(tree):
     b = json.load(open("/root/.vp/BASELINE.json"))
-    x = "/tmp/seedtry-junit.xml"
+    x = f"/tmp/seedtry-junit-{os.getpid()}.xml"
     cmd = b["cmd"].replace("cd /repo", f"cd {tree}").replace("<file>", x) + " --ignore=out"
     sh(cmd)
     passed = set()
